@@ -24,7 +24,9 @@ SRC = "src/cmb_random.c"
 # translation order = call order (callees first)
 TARGETS = ["cmb_random", "cmb_random_uniform", "cmb_random_triangular", "cmb_random_dice", "cmb_random_bernoulli",
            "cmb_random_binomial", "sums_to_one", "cmb_random_loaded_dice", "alias_secure", "cmb_random_alias_create",
-           "cmb_random_alias_sample", "cmb_random_geometric", "cmb_random_std_beta", "cmb_random_PERT_mod"]
+           "cmb_random_alias_sample", "cmb_random_geometric", "cmb_random_std_beta", "cmb_random_PERT_mod", "cmb_random_std_gamma"]
+# functions of which only the leading statements are translated (see c2lean_dist: PARTIAL functions)
+PARTIAL = {"cmb_random_std_gamma"}
 STRUCTS = ["cmb_random_alias"]
 CONST_DOUBLES = ["sum_tolerance"]
 
@@ -145,9 +147,9 @@ def functions_text(impl):
     for name in TARGETS:
         if name not in fns:
             raise c2lean.Untranslatable("function %s with a body not found in %s" % (name, SRC))
-        text, fi = tr.function(fns[name])
+        text, fi = tr.function(fns[name], partial=name in PARTIAL)
         pre = ("  documented preconditions (release asserts): " + "; ".join(p for p in fi.pre if p)) if fi.pre else ""
-        ext = ("  abstract inputs: " + "; ".join("%s = %s" % e for e in fi.ext)) if fi.ext else ""
+        ext = ("  abstract inputs: " + "; ".join("%s = %s" % e for e in fi.ext + fi.ext_nat)) if fi.ext else ""
         body.append("/-- %s (AST %s)%s%s -/\n%s" % (name, c2lean.ast_hash(fns[name]), pre, ext, text))
         info.append({"function": name, "ast": c2lean.ast_hash(fns[name]), "preconditions": fi.pre, "draws": fi.draws,
                      "abstract_libm": fi.libm, "abstract_inputs": [e[1] for e in fi.ext], "statics_as_parameters": [s[0] for s in fi.statics],
